@@ -61,6 +61,7 @@ type FnGen struct {
 	params   map[string]*Val
 	lets     map[string]*Val
 	ghosts   map[string]string // ghost var name -> comp
+	ghostTypes map[string]types.Type
 	closures map[ssa.Value]*ssa.MakeClosure
 	notes    map[string]bool
 	W        []modEntry
@@ -111,6 +112,7 @@ func (fg *FnGen) reset(pass int) {
 	fg.params = map[string]*Val{}
 	fg.lets = map[string]*Val{}
 	fg.ghosts = map[string]string{}
+	fg.ghostTypes = map[string]types.Type{}
 	fg.closures = map[ssa.Value]*ssa.MakeClosure{}
 	if fg.notes == nil {
 		fg.notes = map[string]bool{}
@@ -286,7 +288,7 @@ func (fg *FnGen) havocAll(why string) {
 	fg.havocAllSeen = true
 	old := fg.allocCur()
 	for _, comp := range fg.compOrder {
-		if strings.HasPrefix(comp, "held:") || strings.HasPrefix(comp, "ghost:") {
+		if strings.HasPrefix(comp, "held:") || strings.HasPrefix(comp, "rheld:") || strings.HasPrefix(comp, "ghost:") {
 			continue // lock ownership and ghost variables are thread/verification-local
 		}
 		fg.havocComp(comp)
@@ -831,6 +833,9 @@ func (fg *FnGen) run() (err error) {
 		for _, gv := range c.Ghosts {
 			comp := "ghost:" + gv.Name
 			fg.ghosts[gv.Name] = comp
+			if T := fg.g.resolveTypeString(gv.Type, fnPkgPath(fg.fn)); T != nil {
+				fg.ghostTypes[gv.Name] = T
+			}
 			env := fg.env(fg.cur, fg.entry, nil)
 			iv := fg.evalC(gv.Init, env)
 			fg.compSort(comp, iv.one().Sort)
@@ -966,6 +971,13 @@ func (fg *FnGen) loopHead(b *ssa.BasicBlock, li *loopInfo, fpreds []*ssa.BasicBl
 		mods := fg.loopMods[b.Index]
 		if mods["$all"] {
 			fg.havocAll("loop body havocs everything")
+			// ghost variables and lock ownership are not touched by havocAll (callees cannot see them),
+			// but the loop body itself may have changed them
+			for _, comp := range sortedKeys(mods) {
+				if _, ok := fg.compSorts[comp]; ok && (strings.HasPrefix(comp, "ghost:") || strings.HasPrefix(comp, "held:") || strings.HasPrefix(comp, "rheld:")) {
+					fg.havocComp(comp)
+				}
+			}
 		} else {
 			oldAlloc := fg.allocCur()
 			for _, comp := range sortedKeys(mods) {
